@@ -14,6 +14,7 @@ import EmitModel.Base.Sexp
 import EmitModel.Model.Text
 import EmitModel.Model.HexId
 import EmitModel.Model.TraceparentText
+import EmitModel.Model.Timestamp
 
 namespace EmitModel.Driver.C15
 open EmitModel EmitModel.Text
@@ -123,7 +124,85 @@ def runHex (line : String) : String :=
 
 end Hex
 
+/-! ### c15_ts -/
+section Ts
+open EmitModel.Timestamp
+
+def showTs (t : Nat) : String := s!"{t / NANOS}.{t % NANOS}"
+
+def showParts (p : Parts) : String :=
+  s!"({p.years} {p.months} {p.days} {p.hours} {p.minutes} {p.seconds} {p.nanos})"
+
+/-- coverage signature of a parse case: which check decided -/
+def parseSig (s : List UInt8) : String :=
+  if s.length < 20 ∨ s.length > 30 then "len"
+  else if s[4]? ≠ some 45 ∨ s[7]? ≠ some 45 ∨ s[10]? ≠ some 84 ∨ s[13]? ≠ some 58 ∨ s[16]? ≠ some 58 then "sep"
+  else if s[s.length - 1]? ≠ some 90 then "zone"
+  else if s.length > 20 ∧ s[19]? ≠ some 46 then "dot"
+  else if s.length = 21 then "empty-frac"
+  else match parseRfc3339 s with
+    | .ok _ => s!"ok,frac={s.length - 20}"
+    | .err => "field"
+    | .panic => "panic"
+
+/-- lexicographic `<` on byte strings (`[u8]::cmp`, which is also `str::cmp`) -/
+def bytesLt : List UInt8 → List UInt8 → Bool
+  | [], [] => false
+  | [], _ :: _ => true
+  | _ :: _, [] => false
+  | a :: as, b :: bs => a < b || (a == b && bytesLt as bs)
+
+def prec? : Sexp → Option (Option Nat)
+  | .atom "none" => some none
+  | s => s.nat?.map some
+
+def runTs (line : String) : String :=
+  match Sexp.parse line with
+  | some (.list [.atom "parse", s]) =>
+    match s.bytes? with
+    | some bs => s!"{(parseDisplay bs).render showTs}\tparse-{parseSig bs}"
+    | none => "bad-op"
+  | some (.list [.atom "fmt", p, t]) =>
+    match prec? p, t.nat? with
+    | some p, some t =>
+      if MAX_NS < t then "bad-op"
+      else match fmtRfc3339O p t with
+        | .ok bs => s!"{atomOfBytes bs}\tfmt-{min 10 (p.getD 10)}"
+        | _ => "panic\tfmt-panic"
+    | _, _ => "bad-op"
+  | some (.list [.atom "ord", p, a, b]) =>
+    match prec? p, a.nat?, b.nat? with
+    | some p, some a, some b =>
+      if MAX_NS < a ∨ MAX_NS < b then "bad-op"
+      else match fmtRfc3339O p a, fmtRfc3339O p b with
+        | .ok x, .ok y =>
+          let r := if bytesLt x y then "lt" else if bytesLt y x then "gt" else "eq"
+          s!"{r}\tord-{r}-{min 10 (p.getD 10)}"
+        | _, _ => "panic\tord-panic"
+    | _, _, _ => "bad-op"
+  | some (.list [.atom "to-parts", t]) =>
+    match t.nat? with
+    | some t =>
+      if MAX_NS < t then "bad-op"
+      else match toPartsO t with
+        | .ok p => s!"{showParts p}\tto-parts,m={p.months}"
+        | _ => "panic\tto-parts-panic"
+    | none => "bad-op"
+  | some (.list [.atom "from-parts", y, mo, d, h, mi, s, n]) =>
+    match y.nat?, mo.nat?, d.nat?, h.nat?, mi.nat?, s.nat?, n.nat? with
+    | some y, some mo, some d, some h, some mi, some s, some n =>
+      if 65536 ≤ y ∨ 256 ≤ mo ∨ 256 ≤ d ∨ 256 ≤ h ∨ 256 ≤ mi ∨ 256 ≤ s ∨ 4294967296 ≤ n then "bad-op"
+      else match fromParts ⟨y, mo, d, h, mi, s, n⟩ with
+        | .ok (some t) => s!"ok({showTs t})\tfrom-parts-ok,fast={decide (1900 ≤ y ∧ y ≤ 2038)}"
+        | .ok none => "none\tfrom-parts-none"
+        | .err => "none\tfrom-parts-none"
+        | .panic => "panic\tfrom-parts-panic"
+    | _, _, _, _, _, _, _ => "bad-op"
+  | _ => "bad-op"
+
+end Ts
+
 def streams : List (String × (String → String)) :=
-  [("c15_hex", runHex)]
+  [("c15_hex", runHex), ("c15_ts", runTs)]
 
 end EmitModel.Driver.C15
